@@ -1,10 +1,18 @@
 //! C07 correspondence harness: the two-step ownership / admin handshake of the REAL example
 //! contracts (examples/ownable, examples/nft-access-control) inside the Soroban test host,
 //! with exact authorisation sets, explicit ledger movement and min_temp_entry_ttl = 1.
+//! Third wiring of the same handshake: examples/fungible-votes (`impl Ownable` + `#[only_owner] mint`), printed as kind Own.
+//! Address universe = `naddr` plain accounts (authorise by an exact mock auth entry) + two SPECIAL parties:
+//!   index naddr     = the contract under test ITSELF (nothing can authorise for it: no __check_auth, no re-entrancy -
+//!                     it therefore never occurs in an authorisation set),
+//!   index naddr + 1 = another contract (a forwarder), which authorises the way contracts do: by being the DIRECT INVOKER
+//!                     (a call whose authorisation set contains it is routed through it; the accounts' entries are then
+//!                     rooted at the inner invocation).
+//! Each of them can be the constructor's holder, the addressee of an offer / cancel, and (the forwarder) a signer.
 #![allow(clippy::too_many_arguments)]
 use soroban_sdk::testutils::storage::Temporary as _;
 use soroban_sdk::testutils::{Address as _, Ledger as _, MockAuth, MockAuthInvoke};
-use soroban_sdk::{Address, Env, IntoVal, String, Val};
+use soroban_sdk::{Address, Env, IntoVal, String, Symbol, TryFromVal, Val};
 use stellar_access::access_control::AccessControlStorageKey;
 use stellar_access::ownable::OwnableStorageKey;
 use vh::*;
@@ -14,16 +22,36 @@ mod ownable_ex;
 #[path = "/repo/examples/nft-access-control/src/contract.rs"]
 mod ac_ex;
 
+mod votes_ex {
+    #![allow(dead_code)]
+    #[path = "/repo/examples/fungible-votes/src/contract.rs"]
+    pub mod contract;
+}
+/// the forwarder: a contract that is a party of the handshake; it authorises by invoking directly
+mod fwd {
+    use soroban_sdk::{contract, contractimpl, Address, Env, Symbol, Val, Vec};
+    #[contract]
+    pub struct Fwd;
+    #[contractimpl]
+    impl Fwd {
+        pub fn fwd(e: Env, target: Address, f: Symbol, args: Vec<Val>) -> Val { e.invoke_contract::<Val>(&target, &f, args) }
+    }
+}
+
 type V<T> = std::vec::Vec<T>;
 
 #[derive(Clone, Copy, PartialEq)]
-enum Kind { Own, AC }
+enum Kind { Own, AC, Votes }
+impl Kind { fn tag(self) -> &'static str { match self { Kind::Own => "own", Kind::AC => "ac", Kind::Votes => "votes" } } }
 
 struct World {
     e: Env,
     kind: Kind,
     cid: Address,
-    addrs: V<Address>,
+    addrs: V<Address>,   // accounts 0..naddr-1, then the contract itself (slf), then the forwarder contract (fwd)
+    slf: usize,
+    fwd: usize,
+    h0: usize,           // the constructor's holder
     now: u32,
     start: u32,
     min_ttl: u32,
@@ -42,14 +70,20 @@ struct World {
 }
 
 #[derive(Clone, Debug)]
-enum Call { Offer(usize, u32, V<usize>), Accept(V<usize>), Renounce(V<usize>), Guarded(V<usize>), Advance(u32) }
+enum Call { Offer(usize, u32, V<usize>), Accept(V<usize>), Renounce(V<usize>), Guarded(V<usize>), Advance(u32),
+            /// AccessControl's sibling gate for the admin: set_role_admin (its own `admin.require_auth()`, not enforce_admin_auth);
+            /// printed as Guarded (same clause: runs exactly with the current holder's authorisation). Own / Votes: = Guarded
+            Guarded2(V<usize>) }
 
 fn auths_s(a: &[usize]) -> std::string::String { list(&a.iter().map(|i| n(*i as u64)).collect::<V<_>>()) }
 
 impl World {
     fn new(kind: Kind, naddr: usize, start: u32, min_ttl: u32, max_ttl: u32) -> World { World::new_cfg(kind, naddr, start, min_ttl, max_ttl, std::cmp::min(max_ttl, 4096)) }
     /// min_persist: ledger info min_persistent_entry_ttl (lifetime of the contract instance / code entries in the test host)
-    fn new_cfg(kind: Kind, naddr: usize, start: u32, min_ttl: u32, max_ttl: u32, min_persist: u32) -> World {
+    fn new_cfg(kind: Kind, naddr: usize, start: u32, min_ttl: u32, max_ttl: u32, min_persist: u32) -> World { World::new_h(kind, naddr, start, min_ttl, max_ttl, min_persist, 0) }
+    /// h0: index (in the extended universe) of the holder handed to the constructor: an account, naddr = the contract itself
+    /// (self-governed deployment at a pre-computed address), naddr + 1 = the forwarder contract
+    fn new_h(kind: Kind, naddr: usize, start: u32, min_ttl: u32, max_ttl: u32, min_persist: u32, h0: usize) -> World {
         let e = Env::default();
         e.cost_estimate().budget().reset_unlimited();
         e.cost_estimate().disable_resource_limits();
@@ -59,21 +93,30 @@ impl World {
             l.max_entry_ttl = max_ttl;
             l.min_persistent_entry_ttl = min_persist;
         });
-        let addrs: V<Address> = (0..naddr).map(|_| Address::generate(&e)).collect();
+        let mut addrs: V<Address> = (0..naddr).map(|_| Address::generate(&e)).collect();
+        let cid = Address::generate(&e);
+        let fwd_addr = e.register(fwd::Fwd, ());
+        addrs.push(cid.clone());
+        addrs.push(fwd_addr);
+        let (slf, fwd) = (naddr, naddr + 1);
+        let h0a = addrs[h0].clone();
         let reg = std::panic::catch_unwind(std::panic::AssertUnwindSafe(|| match kind {
-            Kind::Own => e.register(ownable_ex::ExampleContract, (addrs[0].clone(),)),
-            Kind::AC => e.register(
+            Kind::Own => e.register_at(&cid, ownable_ex::ExampleContract, (h0a.clone(),)),
+            Kind::Votes => e.register_at(&cid, votes_ex::contract::ExampleContract, (h0a.clone(),)),
+            Kind::AC => e.register_at(
+                &cid,
                 ac_ex::ExampleContract,
-                (String::from_str(&e, "u"), String::from_str(&e, "n"), String::from_str(&e, "s"), addrs[0].clone()),
+                (String::from_str(&e, "u"), String::from_str(&e, "n"), String::from_str(&e, "s"), h0a.clone()),
             ),
         }));
+        let w = World { e, kind, cid, addrs, slf, fwd, h0, now: start, start, min_ttl, max_ttl, items: vec![], lus: vec![], dead: false, t_new: None, t_lu: None, t_replaced: None, t_cancelled: None, t_accepted: None };
         match reg {
-            Ok(cid) => World { e, kind, cid, addrs, now: start, start, min_ttl, max_ttl, items: vec![], lus: vec![], dead: false, t_new: None, t_lu: None, t_replaced: None, t_cancelled: None, t_accepted: None },
-            Err(_) => { let e = Env::default(); let cid = Address::generate(&e); World { e, kind, cid, addrs: vec![], now: start, start, min_ttl, max_ttl, items: vec![], lus: vec![], dead: true, t_new: None, t_lu: None, t_replaced: None, t_cancelled: None, t_accepted: None } }
+            Ok(_) => w,
+            Err(_) => { let e = Env::default(); let cid = Address::generate(&e); World { e, cid, addrs: vec![], dead: true, ..w } }
         }
     }
     fn header(&self) -> std::string::String {
-        format!("(Build_header {} {} {} {} (Some {}))", if self.kind == Kind::Own { "Own" } else { "AC" }, self.min_ttl, self.max_ttl, self.start, n(0))
+        format!("(Build_header {} {} {} {} (Some {}))", if self.kind == Kind::AC { "AC" } else { "Own" }, self.min_ttl, self.max_ttl, self.start, n(self.h0 as u64))
     }
     fn idx(&self, a: &Address) -> u64 { self.addrs.iter().position(|x| x == a).unwrap_or(999) as u64 }
     /// the public getter; a trapping getter becomes the sentinel Some(998) (never an abort)
@@ -81,6 +124,7 @@ impl World {
         if self.dead { return None; }
         let h = match self.kind {
             Kind::Own => match ownable_ex::ExampleContractClient::new(&self.e, &self.cid).try_get_owner() { Ok(Ok(h)) => h, _ => return Some(998) },
+            Kind::Votes => match votes_ex::contract::ExampleContractClient::new(&self.e, &self.cid).try_get_owner() { Ok(Ok(h)) => h, _ => return Some(998) },
             Kind::AC => match ac_ex::ExampleContractClient::new(&self.e, &self.cid).try_get_admin() { Ok(Ok(h)) => h, _ => return Some(998) },
         };
         h.map(|a| self.idx(&a) as usize)
@@ -91,7 +135,7 @@ impl World {
         let e = &self.e;
         let kind = self.kind;
         let r: Option<(Address, u32)> = std::panic::catch_unwind(std::panic::AssertUnwindSafe(|| e.as_contract(&self.cid, || match kind {
-            Kind::Own => {
+            Kind::Own | Kind::Votes => {
                 let k = OwnableStorageKey::PendingOwner;
                 e.storage().temporary().get::<_, Address>(&k).map(|a| (a, e.storage().temporary().get_ttl(&k)))
             }
@@ -100,57 +144,104 @@ impl World {
                 e.storage().temporary().get::<_, Address>(&k).map(|a| (a, e.storage().temporary().get_ttl(&k)))
             }
         }))).unwrap_or(None);
-        r.map(|(a, ttl)| (self.idx(&a) as usize, self.now + ttl))
+        r.map(|(a, ttl)| (self.idx(&a) as usize, self.now.saturating_add(ttl)))
     }
     fn obs(&self) -> std::string::String {
         let h = self.holder();
         let p = self.pending();
         pair(&opt(h.map(|i| n(i as u64))), &opt(p.map(|(a, l)| pair(&n(a as u64), &z(l as i128)))))
     }
+    /// exact authorisation entries for the accounts in `auths`; the forwarder authorises by invoking (see via_fwd), and
+    /// nothing can authorise for the contract itself (mock_auths would REPLACE a registered contract by a mock account)
     fn mock(&self, fn_name: &str, args: soroban_sdk::Vec<Val>, auths: &[usize]) {
+        assert!(!auths.contains(&self.slf), "the contract under test cannot be a signer");
         let inv = MockAuthInvoke { contract: &self.cid, fn_name, args, sub_invokes: &[] };
-        let mas: V<MockAuth> = auths.iter().map(|&i| MockAuth { address: &self.addrs[i], invoke: &inv }).collect();
+        let mas: V<MockAuth> = auths.iter().filter(|&&i| i != self.fwd).map(|&i| MockAuth { address: &self.addrs[i], invoke: &inv }).collect();
         self.e.mock_auths(&mas);
+    }
+    /// the same invocation made BY the forwarder contract (the direct invoker of the contract under test)
+    fn via_fwd(&self, fn_name: &str, args: soroban_sdk::Vec<Val>) -> Option<Val> {
+        match fwd::FwdClient::new(&self.e, &self.addrs[self.fwd]).try_fwd(&self.cid, &Symbol::new(&self.e, fn_name), &args) { Ok(Ok(v)) => Some(v), _ => None }
     }
     /// executes one call on the real contract, appends (call, outcome, observation)
     fn exec(&mut self, out: &mut Out, c: &Call) -> bool {
         if self.dead { return false; }
         let e = self.e.clone();
         let (holder0, pend0, now0) = (self.holder(), self.pending(), self.now);
+        let c = &match c { Call::Guarded2(au) if self.kind != Kind::AC => Call::Guarded(au.clone()), _ => c.clone() };
         let (text, res, label): (std::string::String, Option<i128>, &str) = match c {
             Call::Offer(new, lu, au) => {
                 let newa = self.addrs[*new].clone();
                 let args: soroban_sdk::Vec<Val> = (newa.clone(), *lu).into_val(&e);
-                let ok = match self.kind {
-                    Kind::Own => { self.mock("transfer_ownership", args, au); matches!(ownable_ex::ExampleContractClient::new(&e, &self.cid).try_transfer_ownership(&newa, lu), Ok(Ok(()))) }
-                    Kind::AC => { self.mock("transfer_admin_role", args, au); matches!(ac_ex::ExampleContractClient::new(&e, &self.cid).try_transfer_admin_role(&newa, lu), Ok(Ok(()))) }
-                };
+                let f = if self.kind == Kind::AC { "transfer_admin_role" } else { "transfer_ownership" };
+                self.mock(f, args.clone(), au);
+                let ok = if au.contains(&self.fwd) { self.via_fwd(f, args).is_some() } else { match self.kind {
+                    Kind::Own => matches!(ownable_ex::ExampleContractClient::new(&e, &self.cid).try_transfer_ownership(&newa, lu), Ok(Ok(()))),
+                    Kind::Votes => matches!(votes_ex::contract::ExampleContractClient::new(&e, &self.cid).try_transfer_ownership(&newa, lu), Ok(Ok(()))),
+                    Kind::AC => matches!(ac_ex::ExampleContractClient::new(&e, &self.cid).try_transfer_admin_role(&newa, lu), Ok(Ok(()))),
+                } };
                 if ok && *lu != 0 { self.lus.push(*lu); }
                 (format!("Offer {} {} {}", n(*new as u64), lu, auths_s(au)), if ok { Some(0) } else { None }, if *lu == 0 { "cancel" } else { "offer" })
             }
             Call::Accept(au) => {
                 let args: soroban_sdk::Vec<Val> = ().into_val(&e);
-                let ok = match self.kind {
-                    Kind::Own => { self.mock("accept_ownership", args, au); matches!(ownable_ex::ExampleContractClient::new(&e, &self.cid).try_accept_ownership(), Ok(Ok(()))) }
-                    Kind::AC => { self.mock("accept_admin_transfer", args, au); matches!(ac_ex::ExampleContractClient::new(&e, &self.cid).try_accept_admin_transfer(), Ok(Ok(()))) }
-                };
+                let f = if self.kind == Kind::AC { "accept_admin_transfer" } else { "accept_ownership" };
+                self.mock(f, args.clone(), au);
+                let ok = if au.contains(&self.fwd) { self.via_fwd(f, args).is_some() } else { match self.kind {
+                    Kind::Own => matches!(ownable_ex::ExampleContractClient::new(&e, &self.cid).try_accept_ownership(), Ok(Ok(()))),
+                    Kind::Votes => matches!(votes_ex::contract::ExampleContractClient::new(&e, &self.cid).try_accept_ownership(), Ok(Ok(()))),
+                    Kind::AC => matches!(ac_ex::ExampleContractClient::new(&e, &self.cid).try_accept_admin_transfer(), Ok(Ok(()))),
+                } };
                 (format!("Accept {}", auths_s(au)), if ok { Some(0) } else { None }, "accept")
             }
             Call::Renounce(au) => {
                 let args: soroban_sdk::Vec<Val> = ().into_val(&e);
-                let ok = match self.kind {
-                    Kind::Own => { self.mock("renounce_ownership", args, au); matches!(ownable_ex::ExampleContractClient::new(&e, &self.cid).try_renounce_ownership(), Ok(Ok(()))) }
-                    Kind::AC => { self.mock("renounce_admin", args, au); matches!(ac_ex::ExampleContractClient::new(&e, &self.cid).try_renounce_admin(), Ok(Ok(()))) }
-                };
+                let f = if self.kind == Kind::AC { "renounce_admin" } else { "renounce_ownership" };
+                self.mock(f, args.clone(), au);
+                let ok = if au.contains(&self.fwd) { self.via_fwd(f, args).is_some() } else { match self.kind {
+                    Kind::Own => matches!(ownable_ex::ExampleContractClient::new(&e, &self.cid).try_renounce_ownership(), Ok(Ok(()))),
+                    Kind::Votes => matches!(votes_ex::contract::ExampleContractClient::new(&e, &self.cid).try_renounce_ownership(), Ok(Ok(()))),
+                    Kind::AC => matches!(ac_ex::ExampleContractClient::new(&e, &self.cid).try_renounce_admin(), Ok(Ok(()))),
+                } };
                 (format!("Renounce {}", auths_s(au)), if ok { Some(0) } else { None }, "renounce")
             }
             Call::Guarded(au) => {
-                let args: soroban_sdk::Vec<Val> = ().into_val(&e);
+                let via = au.contains(&self.fwd);
                 let r = match self.kind {
-                    Kind::Own => { self.mock("increment", args, au); match ownable_ex::ExampleContractClient::new(&e, &self.cid).try_increment() { Ok(Ok(v)) => Some(v as i128), _ => None } }
-                    Kind::AC => { self.mock("admin_restricted_function", args, au); match ac_ex::ExampleContractClient::new(&e, &self.cid).try_admin_restricted_function() { Ok(Ok(_)) => Some(0), _ => None } }
+                    Kind::Own => {
+                        let args: soroban_sdk::Vec<Val> = ().into_val(&e);
+                        self.mock("increment", args.clone(), au);
+                        if via { self.via_fwd("increment", args).and_then(|v| i32::try_from_val(&e, &v).ok()).map(|v| v as i128) }
+                        else { match ownable_ex::ExampleContractClient::new(&e, &self.cid).try_increment() { Ok(Ok(v)) => Some(v as i128), _ => None } }
+                    }
+                    Kind::Votes => {
+                        // #[only_owner] mint of ONE unit to account 0; the value reported for a successful call is the total supply
+                        // read back through the public getter = the number of successful guarded calls (the model's counter)
+                        let to = self.addrs[0].clone();
+                        let args: soroban_sdk::Vec<Val> = (to.clone(), 1i128).into_val(&e);
+                        self.mock("mint", args.clone(), au);
+                        let cl = votes_ex::contract::ExampleContractClient::new(&e, &self.cid);
+                        let ok = if via { self.via_fwd("mint", args).is_some() } else { matches!(cl.try_mint(&to, &1i128), Ok(Ok(()))) };
+                        if ok { match cl.try_total_supply() { Ok(Ok(v)) => Some(v), _ => Some(-1) } } else { None }
+                    }
+                    Kind::AC => {
+                        let args: soroban_sdk::Vec<Val> = ().into_val(&e);
+                        self.mock("admin_restricted_function", args.clone(), au);
+                        if via { self.via_fwd("admin_restricted_function", args).map(|_| 0) }
+                        else { match ac_ex::ExampleContractClient::new(&e, &self.cid).try_admin_restricted_function() { Ok(Ok(_)) => Some(0), _ => None } }
+                    }
                 };
                 (format!("Guarded {}", auths_s(au)), r, "guarded")
+            }
+            Call::Guarded2(au) => {
+                // AccessControl::set_role_admin: `admin.require_auth()` of its own (kind AC only, see above)
+                let (role, adm) = (Symbol::new(&e, "minter"), Symbol::new(&e, "manager"));
+                let args: soroban_sdk::Vec<Val> = (role.clone(), adm.clone()).into_val(&e);
+                self.mock("set_role_admin", args.clone(), au);
+                let ok = if au.contains(&self.fwd) { self.via_fwd("set_role_admin", args).is_some() }
+                         else { matches!(ac_ex::ExampleContractClient::new(&e, &self.cid).try_set_role_admin(&role, &adm), Ok(Ok(()))) };
+                out.label(if ok { "guarded-sibling-gate/ok" } else { "guarded-sibling-gate/fail" });
+                (format!("Guarded {}", auths_s(au)), if ok { Some(0) } else { None }, "guarded")
             }
             Call::Advance(k) => {
                 self.now += *k;
@@ -163,6 +254,7 @@ impl World {
         self.e.mock_auths(&[]);
         let outs = match res { Some(v) => format!("(Ok {})", z(v)), None => "Fail".to_string() };
         out.case(&format!("{}/{}", label, if res.is_some() { "ok" } else { "fail" }), &format!("{} @{} {}", text, self.now, self.items.len()));
+        out.label(&format!("{}:{}/{}", self.kind.tag(), label, if res.is_some() { "ok" } else { "fail" }));
         self.items.push(format!("({}, {}, {})", text, outs, self.obs()));
         self.situation(out, c, res.is_some(), holder0, pend0, now0);
         res.is_some()
@@ -182,6 +274,7 @@ impl World {
                 else if *lu < now0 { out.label("offer-live-until-past/fail"); }
                 else if *lu > now0 + self.max_ttl - 1 { out.label("offer-beyond-max/fail"); }
                 if ok && *lu == now0 { out.label("offer-live-until-now/ok"); }
+                if now0 == 0 { out.label(if ok { "offer-at-ledger-zero/ok" } else { "offer-at-ledger-zero/fail" }); }
                 if ok && *lu == now0 + self.max_ttl - 1 { out.label("offer-live-until-max/ok"); }
             }
             Call::Offer(new, _, au) => {
@@ -201,7 +294,7 @@ impl World {
                     if pend0.is_some() && !pend0.map(|p| au.contains(&p.0)).unwrap_or(false) { out.label("accept-unauthorised/fail"); }
                     if pend0.is_none() && own_dead { out.label("accept-expired/fail"); }
                     if pend0.is_none() && own_dead && by_addressee { out.label("accept-by-addressee-after-live-until/fail"); }
-                    if pend0.is_none() && by_addressee && self.t_lu.map(|l| l + 1 == now0).unwrap_or(false) { out.label("accept-by-addressee-at-live-until-plus-1/fail"); }
+                    if pend0.is_none() && by_addressee && self.t_lu.map(|l| l.checked_add(1) == Some(now0)).unwrap_or(false) { out.label("accept-by-addressee-at-live-until-plus-1/fail"); }
                     if self.t_replaced.map(|a| au.contains(&a) && Some(a) != self.t_new).unwrap_or(false) && pend0.is_some() { out.label("accept-by-replaced-addressee/fail"); }
                     if self.t_cancelled.map(|a| au.contains(&a)).unwrap_or(false) && pend0.is_none() { out.label("accept-after-cancel/fail"); }
                     if self.t_accepted.map(|a| au.contains(&a)).unwrap_or(false) && pend0.is_none() { out.label("accept-twice/fail"); }
@@ -213,10 +306,54 @@ impl World {
                 if ok && own_dead { out.label("renounce-after-expiry/ok"); }
                 if !ok && holder0.is_some() && !signed_holder(au) { out.label("renounce-without-holder-auth/fail"); }
             }
-            Call::Guarded(au) => {
+            Call::Guarded(au) | Call::Guarded2(au) => {
                 if ok && pend0.is_some() { out.label("guarded-while-pending/ok"); }
                 if !ok && holder0.is_none() { out.label("guarded-after-renounce/fail"); }
                 if !ok && pend0.map(|p| au.contains(&p.0)).unwrap_or(false) { out.label("guarded-by-pending/fail"); }
+            }
+            Call::Advance(_) => {}
+        }
+        self.special(out, c, ok, holder0, pend0);
+    }
+    /// labels of the situations with a SPECIAL party (the contract itself / another contract acting as direct invoker); each is
+    /// emitted per wiring (own: / ac: / votes:) so that the gate demands every one of them on every contract
+    fn special(&mut self, out: &mut Out, c: &Call, ok: bool, holder0: Option<usize>, pend0: Option<(usize, u32)>) {
+        let (slf, fwd, tag) = (self.slf, self.fwd, self.kind.tag());
+        let okf = if ok { "ok" } else { "fail" };
+        let mut lab = |name: &str| out.label(&format!("{}:{}/{}", tag, name, okf));
+        let self_owned = holder0 == Some(slf);
+        let h_fwd = holder0 == Some(fwd);
+        let p = pend0.map(|p| p.0);
+        let signed_holder = |au: &V<usize>| holder0.map(|h| au.contains(&h)).unwrap_or(false);
+        match c {
+            Call::Offer(new, lu, au) => {
+                let via = au.contains(&fwd);
+                let kind = if *lu == 0 { "cancel" } else { "offer" };
+                if self_owned { lab(&format!("self-owned-{}", kind)); }
+                if *new == slf && signed_holder(au) { lab(&format!("{}-to-contract-itself", kind)); }
+                if *new == fwd && signed_holder(au) { lab(&format!("{}-to-other-contract", kind)); }
+                if h_fwd { lab(&format!("{}-by-contract-holder-{}", kind, if via { "as-invoker" } else { "not-invoker" })); }
+                else if via && !self_owned { lab(&format!("{}-via-other-contract-{}", kind, if signed_holder(au) { "with-holder-auth" } else { "without-holder-auth" })); }
+            }
+            Call::Accept(au) => {
+                let via = au.contains(&fwd);
+                if self_owned { lab("self-owned-accept"); }
+                if p == Some(slf) { lab("accept-offer-to-contract-itself"); }
+                if p == Some(fwd) { lab(if via { "accept-by-contract-addressee-as-invoker" } else { "accept-contract-addressee-not-invoker" }); }
+                else if via && p.is_some() { lab(if p.map(|a| au.contains(&a)).unwrap_or(false) { "accept-via-other-contract-with-addressee-auth" } else { "accept-via-other-contract-without-addressee-auth" }); }
+            }
+            Call::Renounce(au) => {
+                let via = au.contains(&fwd);
+                if self_owned { lab("self-owned-renounce"); }
+                if p == Some(slf) && signed_holder(au) { lab("renounce-while-pending-to-contract-itself"); }
+                if h_fwd { lab(if via { "renounce-by-contract-holder-as-invoker" } else { "renounce-contract-holder-not-invoker" }); }
+                else if via && !self_owned { lab(if signed_holder(au) { "renounce-via-other-contract-with-holder-auth" } else { "renounce-via-other-contract-without-holder-auth" }); }
+            }
+            Call::Guarded(au) | Call::Guarded2(au) => {
+                let via = au.contains(&fwd);
+                if self_owned { lab("self-owned-guarded"); }
+                if h_fwd { lab(if via { "guarded-by-contract-holder-as-invoker" } else { "guarded-contract-holder-not-invoker" }); }
+                else if via && !self_owned { lab(if signed_holder(au) { "guarded-via-other-contract-with-holder-auth" } else { "guarded-via-other-contract-without-holder-auth" }); }
             }
             Call::Advance(_) => {}
         }
@@ -256,7 +393,10 @@ fn random_trace(out: &mut Out, rng: &mut Rng, kind: Kind, len: usize, desc: &str
     // caveat of transfer_role, outside the property)
     let (min_ttl, max_ttl, min_persist) = match rng.below(12) { 0 | 1 => (1u32, 40u32, 40u32), 2 | 3 => (1, 300, 300), 4 | 5 => (1, 6_312_000, 4096), 6 => (1, 8_000_000, 7_999_999), _ => (1, 5000, 4096) };
     let start = 100 + rng.below(50) as u32;
-    let mut w = World::new_cfg(kind, naddr, start, min_ttl, max_ttl, min_persist);
+    // the constructor's holder: an account, the contract itself (self-governed), another contract
+    let h0 = match rng.below(20) { 0 => naddr, 1..=3 => naddr + 1, _ => 0 };
+    let mut w = World::new_h(kind, naddr, start, min_ttl, max_ttl, min_persist, h0);
+    let (slf, fwd) = (w.slf, w.fwd);
     let mut last_lu: Option<u32> = None;
     for step in 0..len {
         if w.dead { break; }
@@ -266,7 +406,8 @@ fn random_trace(out: &mut Out, rng: &mut Rng, kind: Kind, len: usize, desc: &str
         let now = w.now;
         let maxl = now + max_ttl - 1;
         let r = rng.below(100);
-        let rnd = rng.below(naddr as u64) as usize;
+        // a party: mostly an account, sometimes the contract itself / the other contract
+        let rnd = match rng.below(12) { 0 => slf, 1 => fwd, _ => rng.below(naddr as u64) as usize };
         let call = if r < 30 {
             // offer
             let new = match rng.below(10) { 0 => holder.unwrap_or(0), 1 | 2 => pa.unwrap_or(1), _ => rnd };
@@ -315,6 +456,15 @@ fn random_trace(out: &mut Out, rng: &mut Rng, kind: Kind, len: usize, desc: &str
                     else if !targets.is_empty() && rng.chance(3, 4) { (*rng.pick(&targets) - now as i64) as u32 } else { rng.below(4) as u32 };
             Call::Advance(k)
         };
+        // signer sets: the contract itself can never sign; the other contract signs by being the invoker - also on top of any set
+        let fix = |mut au: V<usize>, extra: bool| { au.retain(|x| *x != slf); if extra && !au.contains(&fwd) { au.push(fwd); } au };
+        let extra = rng.chance(1, 9);
+        let call = match call {
+            Call::Offer(a, l, au) => Call::Offer(a, l, fix(au, extra)), Call::Accept(au) => Call::Accept(fix(au, extra)),
+            Call::Renounce(au) => Call::Renounce(fix(au, extra)),
+            Call::Guarded(au) => if rng.chance(1, 3) { Call::Guarded2(fix(au, extra)) } else { Call::Guarded(fix(au, extra)) },
+            c => c,
+        };
         w.exec(out, &call);
         last_lu = w.t_lu;
     }
@@ -326,6 +476,12 @@ fn scripted(out: &mut Out, kind: Kind, start: u32, min_ttl: u32, max_ttl: u32, c
     for c in calls { w.exec(out, c); }
     w.flush(out, desc);
 }
+/// directed history on a contract whose constructor got holder `h0` (4 accounts; 4 = the contract itself, 5 = the other contract)
+fn scripted_h(out: &mut Out, kind: Kind, h0: usize, calls: &[Call], desc: &str) {
+    let mut w = World::new_h(kind, 4, 100, 1, 5000, 4096, h0);
+    for c in calls { w.exec(out, c); }
+    w.flush(out, desc);
+}
 
 fn main() {
     let mut out = Out::new("From SC Require Import Lib.Prelude Lib.Int Lib.Host Model.RoleTransfer Run.C07.\nOpen Scope Z_scope.", "check_all");
@@ -333,7 +489,8 @@ fn main() {
     let mut rng = Rng::new(out.cfg.seed);
     let thorough = out.cfg.thorough;
     use Call::*;
-    for kind in [Kind::Own, Kind::AC] {
+    let directed_only = std::env::var("VERIF_DIRECTED_ONLY").is_ok();
+    for kind in [Kind::Own, Kind::AC, Kind::Votes] {
         // the known finding F2: offer A until 1000, offer B until 110, ledger 500, B accepts
         scripted(&mut out, kind, 100, 1, 5000, &[Offer(1, 1000, vec![0]), Offer(2, 110, vec![0]), Advance(400), Accept(vec![2]), Guarded(vec![2]), Guarded(vec![0])], "corpus/F2-known");
         // the same shape, but the window is left before accepting: dead
@@ -358,10 +515,42 @@ fn main() {
         // live_until over a stored entry, accept with extra and duplicated signers
         scripted(&mut out, kind, 100, 1, 5000, &[Offer(0, 200, vec![0]), Renounce(vec![0]), Guarded(vec![0]), Accept(vec![0, 0]), Offer(1, 200, vec![0, 3]), Offer(2, 200, vec![3, 0]),
                  Accept(vec![1, 3]), Accept(vec![3, 1, 2]), Guarded(vec![2]), Offer(2, 300, vec![2]), Renounce(vec![2]), Accept(vec![2]), Renounce(vec![2]), Accept(vec![2])], "corpus/self-offer-and-signer-sets");
+        // the very first ledgers: sequence 0 (live_until = 0 is the cancel request there too) and 1
+        scripted(&mut out, kind, 0, 1, 5000, &[Offer(1, 0, vec![0]), Offer(1, 1, vec![0]), Offer(1, 0, vec![0]), Offer(1, 4999, vec![0]), Offer(2, 5000, vec![0]), Offer(1, 0, vec![0]), Offer(2, 0, vec![0]),
+                 Offer(2, 1, vec![0]), Advance(1), Accept(vec![1]), Accept(vec![2]), Offer(1, 1, vec![2]), Advance(1), Accept(vec![1]), Renounce(vec![2]), Guarded(vec![2])], "corpus/ledger-zero");
         // offer expires, a later offer starts afresh (no F2 window)
         scripted(&mut out, kind, 100, 1, 5000, &[Offer(1, 110, vec![0]), Advance(11), Offer(2, 120, vec![0]), Advance(9), Accept(vec![1]), Advance(1), Accept(vec![2])], "corpus/expired-then-fresh");
     }
-    for kind in [Kind::Own, Kind::AC] {
+    // ---- special parties: S = the contract under test itself, F = another contract (authorises as the direct invoker) ----
+    const S: usize = 4;
+    const F: usize = 5;
+    for kind in [Kind::Own, Kind::AC, Kind::Votes] {
+        // self-governed deployment: the holder is the contract itself. Nobody can authorise for it, so NOTHING restricted may
+        // succeed, whoever signs and whoever invokes - the holder keeps the role for good
+        scripted_h(&mut out, kind, S, &[Guarded(vec![]), Guarded(vec![1]), Guarded(vec![F]), Guarded2(vec![1]), Offer(1, 200, vec![]), Offer(1, 200, vec![1]), Offer(1, 200, vec![F]),
+                 Offer(1, 200, vec![0, 1, 2, 3, F]), Accept(vec![1]), Accept(vec![F, 1]), Offer(1, 0, vec![1]), Renounce(vec![]), Renounce(vec![2]), Renounce(vec![F]), Advance(10),
+                 Offer(2, 300, vec![2]), Accept(vec![2]), Offer(S, 300, vec![1]), Offer(S, 0, vec![]), Accept(vec![]), Guarded(vec![0, 1, 2, 3]), Guarded2(vec![])], "special/self-owned");
+        // an offer TO the contract itself can never be accepted; it blocks renounce while stored, can be cancelled / replaced / lapses
+        scripted_h(&mut out, kind, 0, &[Offer(S, 200, vec![0]), Accept(vec![]), Accept(vec![0]), Accept(vec![1, F]), Renounce(vec![0]), Guarded(vec![0]), Offer(S, 0, vec![1]), Offer(S, 0, vec![0]),
+                 Accept(vec![0]), Offer(1, 150, vec![0]), Offer(S, 110, vec![0]), Accept(vec![1]), Advance(11), Accept(vec![0]), Accept(vec![F]), Renounce(vec![0]), Advance(40), Accept(vec![1]),
+                 Renounce(vec![0]), Accept(vec![])], "special/offer-to-self-contract");
+        // the holder is ANOTHER CONTRACT: it offers / cancels / uses the gate / renounces exactly when it is the direct invoker;
+        // it is offered the role back and accepts as the invoker
+        scripted_h(&mut out, kind, F, &[Guarded(vec![]), Guarded(vec![1]), Guarded(vec![F]), Offer(1, 200, vec![1]), Offer(1, 200, vec![]), Offer(1, 200, vec![F]), Renounce(vec![F]), Offer(1, 0, vec![]),
+                 Offer(1, 0, vec![1]), Offer(1, 0, vec![F]), Renounce(vec![]), Offer(1, 200, vec![F, 2]), Accept(vec![F]), Accept(vec![1]), Guarded(vec![F]), Guarded2(vec![F]), Offer(F, 300, vec![1]), Accept(vec![]), Accept(vec![1]),
+                 Guarded(vec![1]), Guarded(vec![F]), Accept(vec![F]), Guarded(vec![1]), Guarded(vec![F, 1]), Guarded2(vec![F]), Renounce(vec![]), Renounce(vec![1]), Renounce(vec![F]), Guarded(vec![F]), Accept(vec![F])], "special/contract-holder");
+        // the holder is an account and the calls come THROUGH another contract: the invoker's identity is worth nothing, the
+        // accounts' entries (rooted at the inner invocation) decide
+        scripted_h(&mut out, kind, 0, &[Offer(1, 200, vec![F]), Guarded(vec![F]), Guarded2(vec![F]), Renounce(vec![F]), Offer(1, 200, vec![0, F]), Accept(vec![F]), Offer(1, 0, vec![F]), Renounce(vec![F, 0]), Offer(1, 0, vec![F, 0]),
+                 Offer(1, 200, vec![F, 0]), Accept(vec![F, 2]), Accept(vec![1, F]), Guarded(vec![0, F]), Guarded(vec![1, F]), Guarded2(vec![F, 1]), Renounce(vec![F]), Renounce(vec![F, 0]), Renounce(vec![F, 1]), Guarded(vec![F, 1])], "special/via-other-contract");
+        // the sibling gate (AccessControl::set_role_admin; the other wirings have one restricted entry point) along a handover
+        scripted_h(&mut out, kind, 0, &[Guarded2(vec![0]), Guarded2(vec![1]), Guarded2(vec![]), Offer(1, 200, vec![0]), Guarded2(vec![1]), Guarded2(vec![0]), Accept(vec![1]), Guarded2(vec![0]), Guarded2(vec![1]),
+                 Guarded2(vec![0, 1]), Renounce(vec![1]), Guarded2(vec![1])], "special/sibling-gate");
+        // offers to the two contracts lapse / are replaced like any other
+        scripted_h(&mut out, kind, 0, &[Offer(F, 110, vec![0]), Advance(11), Accept(vec![F]), Offer(F, 130, vec![0]), Offer(S, 140, vec![0]), Accept(vec![F]), Offer(F, 0, vec![0]), Offer(S, 0, vec![0]), Offer(F, 120, vec![0]),
+                 Offer(F, 0, vec![0]), Accept(vec![F]), Offer(F, 125, vec![0]), Accept(vec![F]), Accept(vec![F]), Offer(F, 126, vec![F]), Accept(vec![F]), Guarded(vec![F])], "special/offers-to-contracts");
+    }
+    for kind in [Kind::Own, Kind::AC, Kind::Votes] {
         for (maxt, minp) in [(6_312_000u32, 4096u32), (8_000_000, 7_999_999)] {
             let mut w = World::new_cfg(kind, 4, 100, 1, maxt, minp);
             for c in [Guarded(vec![0]), Offer(1, 2_000_000, vec![0]), Advance(17281), Guarded(vec![0]), Advance(600_000), Accept(vec![1]), Guarded(vec![1]), Guarded(vec![0]),
@@ -369,14 +558,14 @@ fn main() {
             w.flush(&mut out, "corpus/long-gaps");
         }
     }
-    let ntr = (if thorough { 2400 } else { 400 }) * out.cfg.scale as usize;
+    let ntr = if directed_only { 0 } else { (if thorough { 2400 } else { 400 }) * out.cfg.scale as usize };
     for i in 0..ntr {
-        let kind = if i % 2 == 0 { Kind::Own } else { Kind::AC };
+        let kind = match i % 8 { 7 => Kind::Votes, k if k % 2 == 0 => Kind::Own, _ => Kind::AC };
         let len = if thorough { 40 + rng.below(60) as usize } else { 25 + rng.below(20) as usize };
         let mut r = rng.fork(i as u64);
         random_trace(&mut out, &mut r, kind, len, &format!("random/{}", i));
     }
-    {
+    if !directed_only {
         // exhaustive small scope: every sequence of length 3 (quick) / 5 (thorough) over an 8-letter alphabet (relative to the current ledger)
         let depth: u32 = if thorough { 5 } else { 3 };
         for kind in [Kind::Own, Kind::AC] {
@@ -395,6 +584,28 @@ fn main() {
                     w.exec(&mut out, &call);
                 }
                 w.flush(&mut out, &format!("exhaustive{}/{}", depth, code));
+            }
+        }
+        // the same with the special parties: the constructor's holder is the other contract F; offers go to account 1, to the
+        // contract itself and back to F, always signed by whoever holds the role at that moment (F signs as the invoker)
+        let depth2: u32 = if thorough { 4 } else { 3 };
+        for kind in [Kind::Own, Kind::AC] {
+            let nl = 7usize;
+            for code in 0..nl.pow(depth2) {
+                let mut w = World::new_h(kind, 2, 100, 1, 5000, 4096, 3);
+                let (s_, f_) = (w.slf, w.fwd);
+                let mut c = code;
+                for _ in 0..depth2 {
+                    let l = c % nl; c /= nl;
+                    let now = w.now;
+                    let sig: V<usize> = match w.holder() { Some(h) if h != s_ && h < 100 => vec![h], _ => vec![] };
+                    let call = match l {
+                        0 => Offer(1, now + 1, sig), 1 => Offer(s_, now + 3, sig), 2 => Offer(f_, now + 1, sig),
+                        3 => Accept(vec![1]), 4 => Accept(vec![f_]), 5 => Advance(2), _ => Renounce(sig),
+                    };
+                    w.exec(&mut out, &call);
+                }
+                w.flush(&mut out, &format!("exhaustive-special{}/{}", depth2, code));
             }
         }
     }
